@@ -262,14 +262,14 @@ class C01Oracle(Oracle):
             if la != lb:
                 sim.violate(step, "agreement", {"sub": "count", "inputs": [j, k], "shapes": [lb, la],
                                                 "request": describe_req(req), "remap": self.remap_flag(),
-                                                "dim_agg": self.dim_agg})
+                                                "dim_agg": self.dim_agg, "cause": self.range_cause(req, j, k)})
                 return
             ca, cb = record.get("cases"), other.get("cases")
             if ca is not None and cb is not None and ca != cb:
                 sim.violate(step, "agreement", {"sub": "cases", "inputs": [j, k],
                                                 "only_in_first": sorted(cb - ca)[:4], "only_in_second": sorted(ca - cb)[:4],
                                                 "request": describe_req(req), "remap": self.remap_flag(),
-                                                "dim_agg": self.dim_agg})
+                                                "dim_agg": self.dim_agg, "cause": self.range_cause(req, j, k)})
                 return
             if not self.cfg.get("obs_field"):
                 for pos, f in enumerate(req["fields"]):
@@ -282,6 +282,15 @@ class C01Oracle(Oracle):
                                                         "b": np.asarray(record["arrays"][pos]).flatten()[:6].tolist()})
                         return
         group[k] = record
+
+    def range_cause(self, req, i, j):
+        """Under -T with -obsrange, files whose aggregated observations differ (known finding K1) are
+        range-filtered differently, which shows as differing case sets / counts.  Only that path is
+        attributed; anything else stays 'unknown'."""
+        if self.dim_agg and self.cfg.get("obs_range") and any(f[0] == "Obs" for f in req["fields"]) \
+                and not self.cfg.get("obs_field"):
+            return self.obs_window_cause(i, j)
+        return "none" if not self.dim_agg else "unknown"
 
     def obs_window_cause(self, i, j):
         """Under -T: do the two inputs aggregate over different raw observation windows?
@@ -315,6 +324,8 @@ def signature(spec, violation):
     if k == "agreement":
         if d.get("sub") == "obs_values":
             return "agreement sub=obs_values dim_agg=%s cause=%s" % (d.get("dim_agg"), d.get("cause"))
+        if d.get("dim_agg"):
+            return "agreement sub=%s dim_agg=True cause=%s" % (d.get("sub"), d.get("cause"))
         return "agreement sub=%s dim_agg=%s remap=%s" % (d.get("sub"), d.get("dim_agg"), d.get("remap"))
     if k == "membership":
         return "membership field=%s why=%s dim_agg=%s" % (d.get("field"), (d.get("why") or "").split(" ", 2)[-1], d.get("dim_agg"))
